@@ -159,6 +159,8 @@ var refPool = []string{
 	"crossplane-contrib/provider-nop:v0.2.0",
 	"xpkg.upbound.io/crossplane-contrib/provider-aws@sha256:" + strings.Repeat("ab", 32),
 	"registry.example.org:5000/acme/provider-x:v1.0.0",
+	"docker.io/acme/provider-y:v1.0.0",
+	"index.docker.io/acme/provider-z:v2.0.0",
 }
 
 func (w *world) steps() []initializer.Step {
@@ -405,12 +407,17 @@ func pathOf(ref string) string {
 	return r.Context().RepositoryStr()
 }
 
+// repoOf is the source of a package reference as Crossplane identifies it: the
+// reference as written with its tag or digest cut off (docker.io and
+// index.docker.io are deliberately different sources).
 func repoOf(ref string) string {
-	r, err := name.ParseReference(ref, name.WithDefaultRegistry(""))
-	if err != nil {
-		return ref
+	if i := strings.Index(ref, "@"); i >= 0 {
+		return ref[:i]
 	}
-	return r.Context().Name()
+	if i := strings.LastIndex(ref, ":"); i > strings.LastIndex(ref, "/") {
+		return ref[:i]
+	}
+	return ref
 }
 
 // preinstall creates packages that are "already installed", some under custom
@@ -422,7 +429,7 @@ func (w *world) preinstall(tp *sim.Tape) {
 		if err != nil {
 			return
 		}
-		old := r.Context().Name() + ":v0.0.1"
+		old := repoOf(img) + ":v0.0.1"
 		nm := "custom-" + strings.ToLower(kind)
 		if !custom {
 			nm = strings.NewReplacer("/", "-", ".", "-", ":", "-").Replace(r.Context().RepositoryStr())
@@ -765,17 +772,16 @@ func (w *world) finalOracle() {
 		reqs []string
 	}{{provGK, w.providers}, {confGK, w.configurations}, {funcGK, w.functions}} {
 		for _, req := range x.reqs {
-			rr, err := name.ParseReference(req, name.WithDefaultRegistry(""))
-			if err != nil {
+			if _, err := name.ParseReference(req, name.WithDefaultRegistry("")); err != nil {
 				continue
 			}
 			var have []string
 			uptodate := false
 			for _, k := range w.st.KeysOf(x.gk) {
 				src, _, _ := unstructured.NestedString(w.st.Peek(k), "spec", "package")
-				if repoOf(src) == rr.Context().Name() {
+				if repoOf(src) == repoOf(req) {
 					have = append(have, k.Name+"="+src)
-					if pr, err := name.ParseReference(src, name.WithDefaultRegistry("")); err == nil && pr.Name() == rr.Name() {
+					if src == req {
 						uptodate = true
 					}
 				}
@@ -785,7 +791,7 @@ func (w *world) finalOracle() {
 			case len(have) == 0:
 				w.s.Violate("C20/requested-package-missing", fmt.Sprintf("%s %s was requested but is not installed", x.gk.Kind, req))
 			case len(have) > 1:
-				w.s.Violate("C20/package-installed-twice", fmt.Sprintf("%s repository %s is installed %d times: %v", x.gk.Kind, rr.Context().Name(), len(have), have))
+				w.s.Violate("C20/package-installed-twice", fmt.Sprintf("%s repository %s is installed %d times: %v", x.gk.Kind, repoOf(req), len(have), have))
 			case !uptodate:
 				w.s.Violate("C20/package-not-updated", fmt.Sprintf("%s %s was requested but the installed package is %v", x.gk.Kind, req, have))
 			}
